@@ -90,9 +90,9 @@ class C19(Prop):
     theorems = ["EaselModel.Props.C19." + t for t in (
         "keyhash_refines_partial", "keyhash_refines_cstrings", "keyhash_refines_mixed", "keyhash_nul_store_answer", "keyhash_string_paths", "keyhash_dump", "keyhash_cstr_of_nulfree", "keyhash_never_faults_partial", "keyhash_refines_jenkins_partial", "keyhash_ops_partial", "keyhash_upsize", "keyhash_fields_in_range_partial", "jenkins_in_range",
         "keyhash_embedded_nul_counterexample", "spec_store", "spec_lookup", "spec_get",
-        "keyhash_refines", "keyhash_never_faults", "keyhash_refines_jenkins", "keyhash_ops", "keyhash_key_length", "keyhash_get_cstring", "keyhash_string_paths_repaired", "keyhash_dump_repaired", "keyhash_fields_in_range", "keyhash_embedded_nul_repaired", "keyhash_at_bound", "keyhash_below_bound", "keyhash_at_bound_default", "keyhash_kalloc_at_bound", "keyhash_hashsize_at_bound", "keyhash_growth_in_tree", "keyhash_growth_guarded_never_overflows",
+        "keyhash_refines", "keyhash_never_faults", "keyhash_refines_jenkins", "keyhash_ops", "keyhash_key_length", "keyhash_get_cstring", "keyhash_string_paths_repaired", "keyhash_dump_repaired", "keyhash_fields_in_range", "keyhash_embedded_nul_repaired", "keyhash_at_bound", "keyhash_below_bound", "keyhash_at_bound_default", "keyhash_kalloc_at_bound", "keyhash_hashsize_at_bound", "keyhash_growth_in_tree", "keyhash_growth_guarded_never_overflows", "keyhash_reuse_empties_every_slot", "keyhash_reuse_lookup_immediate",
         "heap_history", "heap_insert", "heap_extract", "heap_extract_null", "heap_extract_null_unguarded_faults", "heap_sorts", "heap_drain", "heap_validate", "heap_nalloc_in_range", "heap_grow", "heap_duplicates",
-        "rb_insert", "rb_history", "rb_wf_iff", "rb_height", "rb_lookup", "rb_sorted_linked", "rb_linked_is_reverse_inorder", "rb_lookup_history", "rb_pool_never_twice", "rb_ptr_lookup", "rb_convert_doubly_linked", "rb_convert_null", "rb_convert_passes_list_test", "rb_ops_history", "rb_ptr_descend", "rb_ptr_insert_duplicate", "rb_ptr_insert_black_parent", "rb_ptr_insert_first", "rb_pool_give_take", "rb_ptr_insert_refines", "rb_ptr_rebalance_refines", "rb_ptr_insert_wf", "rb_ptr_history", "rb_ptr_history_converts", "rb_ptr_pool_history",
+        "rb_insert", "rb_history", "rb_wf_iff", "rb_height", "rb_lookup", "rb_sorted_linked", "rb_linked_is_reverse_inorder", "rb_lookup_history", "rb_pool_never_twice", "rb_ptr_lookup", "rb_convert_doubly_linked", "rb_convert_null", "rb_convert_passes_list_test", "rb_ops_history", "rb_ptr_descend", "rb_ptr_insert_duplicate", "rb_ptr_insert_black_parent", "rb_ptr_insert_first", "rb_pool_give_take", "rb_ptr_insert_refines", "rb_ptr_rebalance_refines", "rb_ptr_insert_wf", "rb_ptr_history", "rb_ptr_history_converts", "rb_ptr_pool_history", "rb_ptr_pool_giveback", "rb_ptr_pool_giveback_history",
         "stack_history", "stack_history_shuffles", "stack_no_fault", "stack_threads_atomic", "stack_threads_conservation", "stack_threads_eod_only_after_release", "stack_threads_mutex_progress", "stack_threads_waiting_pop_completes", "stack_threads_stuck_only_when_all_asleep", "stack_threads_completes_after_release", "stack_push_pop", "stack_pop_empty", "stack_lifo", "stack_popAll_unfold", "stack_discardTopN", "stack_discardSelected",
         "stack_shuffle", "stack_convert2String", "stack_nalloc_in_range",
         "quicksort_sorts", "quicksort_unguarded_n0_faults")]
@@ -317,7 +317,7 @@ class C19(Prop):
                 else:
                     ops.append("num")
             elif r < 0.93:
-                ops.append(rng.choice(["getall", "num", "kh_sizes", "kh_dump"]))
+                ops.append(rng.choice(["getall", "num", "kh_sizes", "kh_dump", "kh_slots"]))
             elif r < 0.93 + p_clone:
                 ops.append("kh_clone")
                 pool2, seen2 = list(pool), set(seen)
@@ -331,7 +331,7 @@ class C19(Prop):
                 else:
                     ops.append("num")
             elif r < 0.93 + 2 * p_clone + p_reuse:
-                ops.append("kh_reuse"); ghosts = pool[-30:]; pool = []; seen = set()
+                ops.append("kh_reuse"); ops.append("kh_slots"); ghosts = pool[-30:]; pool = []; seen = set()
                 # keys from before the reuse must now be absent, and storable again from index 0
                 for k in ghosts[:8]:
                     ops.append("lookup key=%s" % hx(k))
@@ -340,8 +340,8 @@ class C19(Prop):
                     if k not in seen:
                         seen.add(k); pool.append(k)
             else:
-                ops.append(rng.choice(["getall", "num", "kh_sizes", "getall", "kh_dump"]))
-        ops.append("getall"); ops.append("kh_sizes"); ops.append("kh_dump")
+                ops.append(rng.choice(["getall", "num", "kh_sizes", "getall", "kh_dump", "kh_slots"]))
+        ops.append("getall"); ops.append("kh_sizes"); ops.append("kh_dump"); ops.append("kh_slots")
         # look every stored key up once more at the end, and a few absent ones
         for k in pool[-40:]:
             ops.append("lookup key=%s" % hx(k))
@@ -648,6 +648,26 @@ class C19(Prop):
             ops += ["getall", "kh_dump", "kh_sizes", "kh_clone", "kh_swap"] + ["lookup key=%s" % hx(k) for k in hi] + ["kh_reuse"]
             ops += ["store key=%s str=1" % hx(k) for k in reversed(hi)] + ["getall", "kh_dump"]
             out.append({"name": "kh-high-nul-%d" % size, "sticky": 1, "ops": ops})
+        # ---- round 6b: Reuse at SMALL fill (nkeys < hashsize/4, also 0 and 1 keys) and at large fill: raw slot walk right after
+        #      Reuse (every slot -1), every old key absent (a stale slot would find it or walk a stale chain: watchdog), the SAME
+        #      keys stored again get 0,1,2,… with status ok, found again, and again after a second Reuse; keys with embedded NULs
+        #      are stored by length (repaired tree), the same bytes are also asked for as C strings
+        for size in (8, 16, 64, 128, 1024, 4096, 65536):
+            for nk in sorted({0, 1, 2, max(1, size // 8), max(1, size // 4 - 1), size // 4, min(3 * size, 300)}):
+                ks = []
+                for j in range(nk):
+                    r = j % 5
+                    if r == 0 and self._nul_ok(): k = b"r%d\0x%d" % (j, j % 3)
+                    elif r == 1 and self._nul_ok(): k = b"\0" * (1 + j % 3) + b"%d" % j
+                    elif r == 2: k = bytes([0x80 + j % 128]) + b"%d" % j
+                    else: k = b"key%d" % j
+                    ks.append(k)
+                first = "kh_default" if size == 128 and nk % 2 == 0 else "kh_new size=%d kalloc=%d salloc=%d" % (size, rng.choice([1, 4, 128]), rng.choice([1, 16, 2048]))
+                ops = [first, "kh_slots"] + ["store key=%s" % hx(k) for k in ks] + ["kh_slots", "kh_reuse", "kh_slots", "num", "kh_dump"]
+                ops += ["lookup key=%s" % hx(k) for k in ks[:60]] + ["lookup key=%s str=1" % hx(k) for k in ks[:10]]
+                ops += ["store key=%s" % hx(k) for k in ks] + ["kh_slots", "getall"] + ["lookup key=%s" % hx(k) for k in ks[:60]]
+                ops += ["kh_reuse", "kh_slots"] + ["lookup key=%s" % hx(k) for k in ks[:20]] + ["store key=%s" % hx(k) for k in reversed(ks[:20])] + ["kh_slots", "getall", "kh_clone", "kh_swap", "kh_slots", "kh_reuse", "kh_slots", "kh_swap", "kh_slots"]
+                out.append({"name": "kh-reuse-%d-%d" % (size, nk), "sticky": 1, "ops": ops})
         # (b) a 1-slot custom table and the default table across EVERY 8-fold growth (keys 3*size+1): sizes, dump and lookups
         #     at n-1, n, n+1 of each crossing; the quick tier goes through 4 crossings of the 1-slot table (1 -> 4096 slots) and
         #     both crossings of the default table reachable below 10^4 keys, the thorough tier adds the fifth (-> 32768 slots)
@@ -764,6 +784,14 @@ class C19(Prop):
             # table / allocation sizes are tuning constants, not part of the abstract behaviour (a different initial size or
             # growth factor keeps the property): recorded as evidence (growth really happened), not compared
             return "ok sizes"
+        if line.startswith("ok slots "):
+            # raw walk over hashtable[]: key count, records on the chains, bad pointers and cycles are functions of the abstract
+            # content (compared exactly); how many slots are in use depends on the hash function EXCEPT for an empty table
+            # (after Create / Reuse every slot is -1: compared exactly); the table size is a tuning constant
+            w = line.split()
+            d = dict(x.split("=") for x in w[2:] if "=" in x)
+            used = d.get("used", "?") if d.get("nkeys") == "0" else "*"
+            return "ok slots nkeys=%s used=%s chained=%s bad=%s cyc=%s" % (d.get("nkeys"), used, d.get("chained"), d.get("bad"), d.get("cyc"))
         if line.startswith("ok nkeys="):
             # esl_keyhash_Dump: the key count and the arena use are functions of the abstract content (compared); slot occupancy and
             # allocation sizes depend on the hash function and on tuning constants (checked for consistency by the monitor)
@@ -894,6 +922,16 @@ class C19(Prop):
                 if d["size"] != 4 * hs + 8 * d["kalloc"] + d["salloc"]: return fail(i, "Sizeof is not the sum of the allocations")
                 if not (d["min"] * hs <= n <= d["max"] * hs and d["min"] <= d["max"] and d["max"] <= n): return fail(i, "slot occupancies do not add up to the key count")
                 if (d["nempty"] == hs) != (n == 0) or n > (hs - d["nempty"]) * d["max"]: return fail(i, "slot occupancies do not add up to the key count")
+            elif name == "kh_slots":
+                try:
+                    d = {a: int(b) for a, b in (x.split("=") for x in w[2:])}
+                except Exception:
+                    return fail(i, "unparsable slot walk")
+                n = len(keys)
+                if d["nkeys"] != n: return fail(i, "%d keys were stored" % n)
+                if d["bad"] or d["cyc"]: return fail(i, "hashtable[] / nxt[] hold a pointer outside [0,nkeys) or a chain longer than nkeys (stale slot or cycle)")
+                if d["chained"] != n: return fail(i, "the chains hold %d records, %d keys are stored" % (d["chained"], n))
+                if (d["used"] == 0) != (n == 0) or d["used"] > min(n, d["hashsize"]): return fail(i, "non-empty slots do not fit the key count (after Reuse every slot must be empty)")
             # ---------------- red-black, pointer level
             elif name == "rp_new":
                 rp, rp_id2key, rp_list = set(), {}, None
@@ -1125,7 +1163,7 @@ class C19(Prop):
     API_THEOREMS = {
         "esl_keyhash_Create": ["keyhash_refines", "keyhash_ops"], "esl_keyhash_CreateCustom": ["keyhash_refines", "keyhash_ops", "keyhash_at_bound"],
         "esl_keyhash_Clone": ["keyhash_refines", "keyhash_ops"], "esl_keyhash_Get": ["keyhash_refines", "keyhash_get_cstring", "spec_get"],
-        "esl_keyhash_GetNumber": ["keyhash_ops"], "esl_keyhash_Sizeof": [], "esl_keyhash_Reuse": ["keyhash_refines", "keyhash_ops"],
+        "esl_keyhash_GetNumber": ["keyhash_ops"], "esl_keyhash_Sizeof": [], "esl_keyhash_Reuse": ["keyhash_refines", "keyhash_ops", "keyhash_reuse_empties_every_slot", "keyhash_reuse_lookup_immediate"],
         "esl_keyhash_Destroy": [], "esl_keyhash_Dump": ["keyhash_dump_repaired"],
         "esl_keyhash_Store": ["keyhash_refines", "keyhash_key_length", "keyhash_string_paths_repaired", "spec_store", "keyhash_upsize", "keyhash_at_bound"],
         "esl_keyhash_Lookup": ["keyhash_refines", "keyhash_string_paths_repaired", "spec_lookup"],
@@ -1133,7 +1171,7 @@ class C19(Prop):
         "esl_heap_Reuse": ["heap_history"], "esl_heap_Destroy": [], "esl_heap_IInsert": ["heap_insert", "heap_history", "heap_grow", "heap_duplicates"],
         "esl_heap_IExtractTop": ["heap_extract", "heap_extract_null", "heap_sorts", "heap_drain"], "esl_heap_IGetTop": [],
         "esl_red_black_doublekey_Create": ["rb_ptr_history"], "esl_red_black_doublekey_Destroy": [], "esl_red_black_doublekey_linked_list_Destroy": [],
-        "esl_red_black_doublekey_pool_Create": ["rb_pool_never_twice", "rb_pool_give_take", "rb_ptr_pool_history"],
+        "esl_red_black_doublekey_pool_Create": ["rb_pool_never_twice", "rb_pool_give_take", "rb_ptr_pool_history", "rb_ptr_pool_giveback", "rb_ptr_pool_giveback_history"],
         "esl_red_black_doublekey_insert": ["rb_ptr_insert_refines", "rb_ptr_rebalance_refines", "rb_ptr_insert_wf", "rb_ptr_history", "rb_insert", "rb_history", "rb_height"],
         "esl_red_black_doublekey_lookup": ["rb_ptr_lookup", "rb_lookup", "rb_lookup_history"],
         "esl_red_black_doublekey_convert_to_sorted_linked": ["rb_convert_doubly_linked", "rb_convert_passes_list_test", "rb_convert_null", "rb_ptr_history_converts", "rb_sorted_linked"],
